@@ -6,6 +6,7 @@ import (
 	"fmt"
 	"os"
 	"os/exec"
+	"regexp"
 	"runtime"
 	"strconv"
 	"strings"
@@ -51,6 +52,8 @@ func runWorker(f *csnet.Fixture, n int, run func(i int) (string, string, outcome
 		out.Flush()
 	}
 }
+
+var reIndex = regexp.MustCompile(`index out of range \[-?\d+\]`)
 
 const workerMemKB = 6 * 1024 * 1024 // ulimit -v for a worker (KiB)
 
@@ -132,6 +135,16 @@ func runParent(r *vk.Run, n int, handle func(i int, res workerResult)) {
 				case strings.Contains(es, "fatal error:"):
 					i := strings.Index(es, "fatal error:")
 					reason = strings.SplitN(es[i:], "\n", 2)[0]
+				case strings.Contains(es, "panic:"):
+					// an unrecovered panic in a goroutine (e.g. one of the reactor's gossip routines) ends the process
+					i := strings.Index(es, "panic:")
+					reason = "unrecovered " + reIndex.ReplaceAllString(strings.SplitN(es[i:], "\n", 2)[0], "index out of range [N]")
+					if j := strings.Index(es, "consensus.(*ConsensusReactor)."); j > 0 {
+						fn := es[j+len("consensus.(*ConsensusReactor)."):]
+						if k := strings.IndexAny(fn, "(\n"); k > 0 {
+							reason += " in " + fn[:k]
+						}
+					}
 				}
 				handle(inflight, workerResult{Idx: inflight, Fatal: reason, State: "?", Msgs: caseNames(inflight)})
 				from = inflight + 1
